@@ -206,6 +206,10 @@ fn scripts() -> Vec<(&'static str, Vec<HInit>, Vec<Op>)> {
         ("restart-send-drop", vec![HInit::Addr], vec![Op::Restart(a0), Op::Send(a0, 11), Op::Drop(a0)]),
         ("send-restart-call-drop", vec![HInit::Addr, HInit::Cal], vec![Op::Send(a0, 12), Op::Restart(a0), Op::Drop(a0), Op::Call(H::Cal(0), 13), Op::Drop(H::Cal(0))]),
         ("held-caller", vec![HInit::Cal], vec![Op::Call(H::Cal(0), 10), Op::Downgrade(H::Cal(0)), Op::Drop(H::Cal(0)), Op::UpgradeProbe(H::WCal(0))]),
+        // the owner goes first, neither detached nor joined: the address derived from it is as strong as any
+        ("owner-dropped-first", vec![HInit::Own], vec![Op::ToAddr(H::Own(0)), Op::Drop(H::Own(0)), Op::Send(H::Addr(0), 14), Op::Call(H::Addr(0), 15), Op::Drop(H::Addr(0))]),
+        // ... and the owner as the last strong handle
+        ("owner-dropped-last", vec![HInit::Own], vec![Op::ToAddr(H::Own(0)), Op::Send(H::Addr(0), 16), Op::Drop(H::Addr(0)), Op::Call(H::Own(0), 17), Op::Drop(H::Own(0))]),
     ]
 }
 
@@ -333,6 +337,7 @@ fn base_cases(tier: Tier) -> Vec<Case> {
         for &ex in &extras {
             // the owner script can appear at most once
             let restarting = |k: usize| scripts()[k].0.contains("restart");
+            let owner = |k: usize| scripts()[k].0.contains("owner");
             for i in 0..n {
                 // the restart scripts re-register every timer; they are combined with the plain
                 // and the delayed_exec scenes only
@@ -341,7 +346,7 @@ fn base_cases(tier: Tier) -> Vec<Case> {
                 }
                 v.push(make_case(&[i], ex, mb, 0, None));
                 for j in i..n {
-                    if i == 7 && j == 7 {
+                    if owner(i) && owner(j) {
                         continue;
                     }
                     if restarting(j) && !matches!(ex, Extras::None | Extras::DelayedExec) {
@@ -357,13 +362,14 @@ fn base_cases(tier: Tier) -> Vec<Case> {
         if mb == Mailbox::U {
             // (a restart cannot be sent to a stream-attached actor: scripts 10 and 11 stay out)
             let restarting = |k: usize| scripts()[k].0.contains("restart");
+            let owner = |k: usize| scripts()[k].0.contains("owner");
             for i in 0..n {
                 if restarting(i) {
                     continue;
                 }
                 v.push(make_case_s(&[i], Extras::None, mb, 0, None, true));
                 for j in i..n {
-                    if (i == 7 && j == 7) || restarting(j) {
+                    if (owner(i) && owner(j)) || restarting(j) {
                         continue;
                     }
                     v.push(make_case_s(&[i, j], Extras::None, mb, 0, None, true));
@@ -381,7 +387,7 @@ fn base_cases(tier: Tier) -> Vec<Case> {
         for i in 0..n {
             for j in i..n {
                 for k in j..n {
-                    if [i, j, k].iter().filter(|x| **x == 7).count() > 1 {
+                    if [i, j, k].iter().filter(|x| scripts()[**x].0.contains("owner")).count() > 1 {
                         continue;
                     }
                     v.push(make_case(&[i, j, k], Extras::None, Mailbox::U, 0, None));
